@@ -319,6 +319,24 @@ func (p *entryPool) bloomTree(w *Tape, depth int) bs.BloomExpression {
 	for i := range kids {
 		kids[i] = p.bloomTree(w, depth+1)
 	}
+	if w.Draw(4) == 0 {
+		// A sibling of another kind over the same text (Field(x) next to Token(x), ...): the
+		// shapes a matcher that keys conditions by their strings would confuse.
+		if c := kids[w.Draw(len(kids))].Condition; c != nil {
+			text := c.Field
+			if text == "" {
+				text = c.Token
+			}
+			switch w.Draw(3) {
+			case 0:
+				kids = append(kids, bs.Field(text))
+			case 1:
+				kids = append(kids, bs.Token(text))
+			default:
+				kids = append(kids, bs.FieldToken(text, c.Token))
+			}
+		}
+	}
 	if w.Bool() {
 		return bs.And(kids...)
 	}
